@@ -44,8 +44,6 @@ Proof.
 Qed.
 
 (* ------------------------------------------------------------------ quoting *)
-Definition no_nul (s : str) : Prop := ~ In ch_nul s.
-
 Lemma no_nul_cons : forall c s, no_nul (c :: s) <-> c <> ch_nul /\ no_nul s.
 Proof. unfold no_nul. cbn. intuition. Qed.
 
@@ -87,7 +85,7 @@ Proof.
       change (lex env MS acc (39 :: 34 :: 39 :: 34 :: 39 :: esc_sq s ++ ch_sq :: rest))
         with (lex env MS (acc ++ [39]) (esc_sq s ++ ch_sq :: rest)).
       rewrite IH by exact Hs. rewrite <- app_assoc. reflexivity.
-    + cbn [lex step]. destruct (N.eqb_spec c ch_nul) as [E0|E0]; [contradiction|].
+    + cbn [app lex step]. destruct (N.eqb_spec c ch_nul) as [E0|E0]; [contradiction|].
       destruct (N.eqb_spec c ch_sq) as [E1|E1]; [contradiction|].
       rewrite IH by exact Hs. rewrite <- app_assoc. reflexivity.
 Qed.
@@ -113,4 +111,823 @@ Lemma quote_roundtrip_proof : forall env s, no_nul s -> bash_word env (quote s) 
 Proof.
   intros env s Hn. unfold bash_word.
   rewrite <- (app_nil_r (quote s)). rewrite lex_quote by exact Hn. cbn. reflexivity.
+Qed.
+
+(* ------------------------------------------------------------------ environments *)
+Lemma lookup_set_same : forall e k v, lookup (set_var e k v) k = Some v.
+Proof.
+  induction e as [|[k' v'] e IH]; intros k v; cbn.
+  - rewrite str_eqb_refl. reflexivity.
+  - destruct (str_eqb k k') eqn:E; cbn.
+    + rewrite str_eqb_refl. reflexivity.
+    + rewrite E. apply IH.
+Qed.
+
+Lemma lookup_set_other : forall e k v k', k' <> k -> lookup (set_var e k v) k' = lookup e k'.
+Proof.
+  induction e as [|[k0 v0] e IH]; intros k v k' Hne; cbn.
+  - apply str_eqb_neq in Hne. rewrite Hne. reflexivity.
+  - destruct (str_eqb k k0) eqn:E; cbn.
+    + apply str_eqb_eq in E. subst k0. apply str_eqb_neq in Hne. rewrite Hne. reflexivity.
+    + destruct (str_eqb k' k0); [reflexivity | apply IH; exact Hne].
+Qed.
+
+Lemma getenv_set_other : forall e k v k', k' <> k -> getenv (set_var e k v) k' = getenv e k'.
+Proof. intros. unfold getenv. rewrite lookup_set_other by assumption. reflexivity. Qed.
+
+Lemma lookup_None_keys : forall e k, lookup e k = None <-> ~ In k (keys e).
+Proof.
+  induction e as [|[k' v'] e IH]; intros k; cbn.
+  - intuition.
+  - destruct (str_eqb k k') eqn:E.
+    + apply str_eqb_eq in E. subst. split; [discriminate | intro H; exfalso; apply H; left; reflexivity].
+    + apply str_eqb_neq in E. rewrite IH. split; intro H; [intros [H1|H1]; [congruence | contradiction] | intro H1; apply H; right; exact H1].
+Qed.
+
+Lemma lookup_In : forall e k v, NoDup (keys e) -> In (k, v) e -> lookup e k = Some v.
+Proof.
+  induction e as [|[k' v'] e IH]; intros k v Hnd Hin; cbn in *; [contradiction|].
+  inversion Hnd as [|? ? Hnotin Hnd']; subst.
+  destruct Hin as [Hin|Hin].
+  - inversion Hin; subst. rewrite str_eqb_refl. reflexivity.
+  - destruct (str_eqb k k') eqn:E.
+    + apply str_eqb_eq in E. subst k'. exfalso. apply Hnotin. unfold keys. apply in_map_iff. exists (k, v). split; [reflexivity | exact Hin].
+    + apply IH; assumption.
+Qed.
+
+Lemma lookup_Some_In : forall e k v, lookup e k = Some v -> In (k, v) e.
+Proof.
+  induction e as [|[k' v'] e IH]; intros k v H; cbn in *; [discriminate|].
+  destruct (str_eqb k k') eqn:E.
+  - apply str_eqb_eq in E. inversion H; subst. left; reflexivity.
+  - right. apply IH. exact H.
+Qed.
+
+Lemma keys_set_var : forall e k v k', In k' (keys (set_var e k v)) <-> k' = k \/ In k' (keys e).
+Proof.
+  induction e as [|[k0 v0] e IH]; intros k v k'; cbn.
+  - intuition.
+  - destruct (str_eqb k k0) eqn:E; cbn.
+    + apply str_eqb_eq in E. subst k0. intuition.
+    + rewrite IH. intuition.
+Qed.
+
+Lemma NoDup_keys_set_var : forall e k v, NoDup (keys e) -> NoDup (keys (set_var e k v)).
+Proof.
+  induction e as [|[k0 v0] e IH]; intros k v Hnd; cbn.
+  - constructor; [intros [] | constructor].
+  - inversion Hnd as [|? ? Hnotin Hnd']; subst.
+    destruct (str_eqb k k0) eqn:E; cbn.
+    + apply str_eqb_eq in E. subst k0. constructor; assumption.
+    + constructor; [| apply IH; exact Hnd'].
+      intro H. apply keys_set_var in H. destruct H as [H|H]; [subst; rewrite str_eqb_refl in E; discriminate | contradiction].
+Qed.
+
+Lemma In_set_var : forall e k v k' w, NoDup (keys e) ->
+  In (k', w) (set_var e k v) -> (k' = k /\ w = v) \/ (k' <> k /\ In (k', w) e).
+Proof.
+  induction e as [|[k0 v0] e IH]; intros k v k' w Hnd Hin; cbn in *.
+  - destruct Hin as [Hin|[]]. inversion Hin; subst. left; split; reflexivity.
+  - inversion Hnd as [|? ? Hnotin Hnd']; subst.
+    destruct (str_eqb k k0) eqn:E; cbn in Hin.
+    + apply str_eqb_eq in E. subst k0. destruct Hin as [Hin|Hin].
+      * inversion Hin; subst. left; split; reflexivity.
+      * right. split; [| right; exact Hin].
+        intro; subst k'. apply Hnotin. unfold keys. apply in_map_iff. exists (k, w). split; [reflexivity | exact Hin].
+    + destruct Hin as [Hin|Hin].
+      * inversion Hin; subst. right. split; [| left; reflexivity].
+        intro; subst. rewrite str_eqb_refl in E. discriminate.
+      * destruct (IH _ _ _ _ Hnd' Hin) as [H|[H1 H2]]; [left; exact H | right; split; [exact H1 | right; exact H2]].
+Qed.
+
+Lemma In_set_var_new : forall e k v, In (k, v) (set_var e k v).
+Proof.
+  induction e as [|[k0 v0] e IH]; intros k v; cbn.
+  - left; reflexivity.
+  - destruct (str_eqb k k0); [left; reflexivity | right; apply IH].
+Qed.
+
+Lemma In_set_var_old : forall e k v k' w, k' <> k -> In (k', w) e -> In (k', w) (set_var e k v).
+Proof.
+  induction e as [|[k0 v0] e IH]; intros k v k' w Hne Hin; cbn in *; [contradiction|].
+  destruct (str_eqb k k0) eqn:E.
+  - apply str_eqb_eq in E. subst k0. destruct Hin as [Hin|Hin]; [inversion Hin; subst; contradiction | right; exact Hin].
+  - destruct Hin as [Hin|Hin]; [left; exact Hin | right; apply IH; assumption].
+Qed.
+
+(* filter by key *)
+Lemma lookup_filter_key : forall (P : str -> bool) e k,
+  lookup (filter (fun kv => P (fst kv)) e) k = if P k then lookup e k else None.
+Proof.
+  induction e as [|[k' v'] e IH]; intros k; cbn.
+  - destruct (P k); reflexivity.
+  - destruct (P k') eqn:EP; cbn.
+    + destruct (str_eqb k k') eqn:E.
+      * apply str_eqb_eq in E. subst. rewrite EP. reflexivity.
+      * apply IH.
+    + rewrite IH. destruct (str_eqb k k') eqn:E; [|reflexivity].
+      apply str_eqb_eq in E. subst. rewrite EP. reflexivity.
+Qed.
+
+(* ------------------------------------------------------------------ sorting *)
+Lemma insert_kv_perm : forall x l, Permutation (insert_kv x l) (x :: l).
+Proof.
+  induction l as [|y l IH]; cbn; [apply Permutation_refl|].
+  destruct (str_leb (fst x) (fst y)); [apply Permutation_refl|].
+  eapply Permutation_trans; [apply perm_skip; exact IH | apply perm_swap].
+Qed.
+
+Lemma sort_kv_perm : forall l, Permutation (sort_kv l) l.
+Proof.
+  induction l as [|x l IH]; cbn; [constructor|].
+  eapply Permutation_trans; [apply insert_kv_perm | apply perm_skip; exact IH].
+Qed.
+
+(* ------------------------------------------------------------------ running export lists *)
+(* value of an entry: independent of the environment, or (the PATH line)
+   dependent only on the PATH the interpreter inherited *)
+Inductive entry_val (e0 : envmap) : str -> str -> str -> Prop :=
+| ev_const : forall k w v, (forall e, bash_word e w = Some v) -> entry_val e0 k w v
+| ev_path : forall w v, (forall e, getenv e s_PATH = getenv e0 s_PATH -> bash_word e w = Some v) ->
+            entry_val e0 s_PATH w v.
+
+Lemma run_exports_spec : forall e0 l e,
+  NoDup (keys l) ->
+  (forall k w, In (k, w) l -> exists v, entry_val e0 k w v) ->
+  (In s_PATH (keys l) -> getenv e s_PATH = getenv e0 s_PATH) ->
+  exists e', run_exports e l = Some e' /\
+    (forall k w v, In (k, w) l -> entry_val e0 k w v -> lookup e' k = Some v) /\
+    (forall k, ~ In k (keys l) -> lookup e' k = lookup e k).
+Proof.
+  intros e0. induction l as [|[k w] l IH]; intros e Hnd Hval Hpath; cbn [run_exports].
+  - exists e. split; [reflexivity|]. split; [intros ? ? ? []| reflexivity].
+  - cbn [keys map fst] in Hnd. inversion Hnd as [|? ? Hnotin Hnd']; subst.
+    destruct (Hval k w (or_introl eq_refl)) as [v Hv].
+    assert (Hbw : bash_word e w = Some v).
+    { inversion Hv as [? ? ? Hc | ? ? Hp]; subst; [apply Hc | apply Hp; apply Hpath; left; reflexivity]. }
+    rewrite Hbw.
+    destruct (IH (set_var e k v) Hnd') as [e' [Hrun [Hin Hout]]].
+    + intros k1 w1 H1. apply Hval. right. exact H1.
+    + intro HP. rewrite getenv_set_other; [apply Hpath; right; exact HP|].
+      intro; subst k. contradiction.
+    + exists e'. split; [exact Hrun|]. split.
+      * intros k1 w1 v1 [H1|H1] Hev.
+        -- inversion H1; subst k1 w1.
+           assert (v1 = v).
+           { assert (Hb1 : bash_word e w = Some v1).
+             { inversion Hev as [? ? ? Hc | ? ? Hp]; subst; [apply Hc | apply Hp; apply Hpath; left; reflexivity]. }
+             congruence. }
+           subst v1. rewrite Hout by exact Hnotin. apply lookup_set_same.
+        -- eapply Hin; eassumption.
+      * intros k1 Hk1. cbn [keys map fst] in Hk1.
+        rewrite Hout; [| intro; apply Hk1; right; assumption].
+        apply lookup_set_other. intro; subst. apply Hk1. left; reflexivity.
+Qed.
+
+(* ------------------------------------------------------------------ words of the prolog *)
+Lemma join_cons2 : forall sep (x y : str) r, join_with sep (x :: y :: r) = x ++ sep ++ join_with sep (y :: r).
+Proof. reflexivity. Qed.
+
+Lemma lex_colon : forall env acc rest, lex env MU acc (ch_colon :: rest) = lex env MU (acc ++ [ch_colon]) rest.
+Proof. reflexivity. Qed.
+
+Lemma lex_dollar_PATH_end : forall env acc,
+  lex env MU acc s_dollar_PATH = Some (acc ++ getenv env s_PATH, []).
+Proof. reflexivity. Qed.
+
+Lemma lex_dollar_PATH_nl : forall env acc rest,
+  lex env MU acc (s_dollar_PATH ++ ch_nl :: rest) = Some (acc ++ getenv env s_PATH, ch_nl :: rest).
+Proof. reflexivity. Qed.
+
+(* join of quoted strings *)
+Lemma lex_join_quotes : forall env ps acc rest,
+  Forall no_nul ps ->
+  lex env MU acc (join_with [ch_colon] (map quote ps) ++ rest) =
+  lex env MU (acc ++ join_with [ch_colon] ps) rest.
+Proof.
+  induction ps as [|p ps IH]; intros acc rest Hn.
+  - cbn. rewrite app_nil_r. reflexivity.
+  - inversion Hn as [|? ? Hp Hps]; subst. destruct ps as [|q ps].
+    + cbn [map join_with]. apply lex_quote. exact Hp.
+    + cbn [map]. rewrite !join_cons2. rewrite <- !app_assoc.
+      rewrite lex_quote by exact Hp. cbn [app]. rewrite lex_colon.
+      change (quote q :: map quote ps) with (map quote (q :: ps)).
+      rewrite IH by exact Hps. rewrite <- !app_assoc. reflexivity.
+Qed.
+
+Lemma join_snoc : forall sep (ps : list str) (x : str), ps <> [] ->
+  join_with sep (ps ++ [x]) = join_with sep ps ++ sep ++ x.
+Proof.
+  induction ps as [|p ps IH]; intros x Hne; [congruence|].
+  destruct ps as [|q ps].
+  - reflexivity.
+  - change ((p :: q :: ps) ++ [x]) with (p :: (q :: ps) ++ [x]).
+    change ((q :: ps) ++ [x]) with (q :: ps ++ [x]).
+    rewrite !join_cons2. change (q :: ps ++ [x]) with ((q :: ps) ++ [x]).
+    rewrite IH by discriminate. rewrite <- !app_assoc. reflexivity.
+Qed.
+
+Lemma lex_path_word_gen : forall env ps acc tailw,
+  Forall no_nul ps ->
+  lex env MU acc (join_with [ch_colon] (map quote ps ++ [s_dollar_PATH]) ++ tailw) =
+  lex env MU (acc ++ join_with [ch_colon] (ps ++ [[]])) (s_dollar_PATH ++ tailw).
+Proof.
+  intros env ps acc tailw Hn. destruct ps as [|p ps].
+  - cbn. rewrite app_nil_r. reflexivity.
+  - assert (Hm : map quote (p :: ps) <> []) by discriminate.
+    rewrite (join_snoc [ch_colon] (map quote (p :: ps)) s_dollar_PATH Hm).
+    assert (Hp : p :: ps <> []) by discriminate.
+    replace (join_with [ch_colon] ((p :: ps) ++ [[]])) with (join_with [ch_colon] (p :: ps) ++ [ch_colon] ++ [])
+      by (symmetry; apply join_snoc; exact Hp).
+    rewrite <- !app_assoc. rewrite lex_join_quotes by exact Hn.
+    cbn [app]. rewrite lex_colon. rewrite <- !app_assoc. reflexivity.
+Qed.
+
+Lemma join_snoc_nil_val : forall (ps : list str) (x : str),
+  join_with [ch_colon] (ps ++ [[]]) ++ x = join_with [ch_colon] (ps ++ [x]).
+Proof.
+  intros ps x. destruct ps as [|p ps].
+  - cbn. reflexivity.
+  - rewrite !join_snoc by discriminate. rewrite <- !app_assoc. reflexivity.
+Qed.
+
+Lemma bash_word_path_word : forall env cwd paths,
+  Forall no_nul (map (abspath cwd) paths) ->
+  bash_word env (path_word cwd paths) = Some (path_value (map (abspath cwd) paths) (getenv env s_PATH)).
+Proof.
+  intros env cwd paths Hn. unfold bash_word, path_word, path_value.
+  rewrite <- (map_map (abspath cwd) quote).
+  rewrite <- (app_nil_r (join_with [ch_colon] (map quote (map (abspath cwd) paths) ++ [s_dollar_PATH]))).
+  rewrite lex_path_word_gen by exact Hn. rewrite app_nil_r.
+  rewrite lex_dollar_PATH_end. rewrite <- app_assoc. cbn [app]. rewrite join_snoc_nil_val. reflexivity.
+Qed.
+
+Lemma bash_word_ld_word : forall env cwd libs,
+  Forall no_nul (map (abspath cwd) libs) ->
+  bash_word env (ld_word cwd libs) = Some (join_with [ch_colon] (map (abspath cwd) libs)).
+Proof.
+  intros env cwd libs Hn. unfold bash_word, ld_word.
+  rewrite <- (map_map (abspath cwd) quote).
+  rewrite <- (app_nil_r (join_with [ch_colon] (map quote (map (abspath cwd) libs)))).
+  rewrite lex_join_quotes by exact Hn. cbn. reflexivity.
+Qed.
+
+(* ------------------------------------------------------------------ the prolog *)
+Lemma keys_map_quote : forall e : envmap, keys (map (fun kv => (fst kv, quote (snd kv))) e) = keys e.
+Proof. intros e. unfold keys. rewrite map_map. reflexivity. Qed.
+
+Lemma bob_vars_distinct : s_PATH <> s_LD /\ s_PATH <> s_BOB_CWD /\ s_LD <> s_BOB_CWD.
+Proof. repeat split; discriminate. Qed.
+
+Lemma not_bob_var : forall k, ~ In k bob_vars <-> k <> s_PATH /\ k <> s_LD /\ k <> s_BOB_CWD.
+Proof. intros k. unfold bob_vars. cbn. intuition. Qed.
+
+Lemma keys_prolog_unsorted : forall cwd sp k,
+  In k (keys (prolog_unsorted cwd sp)) <-> In k bob_vars \/ In k (keys sp.(sp_env)).
+Proof.
+  intros cwd sp k. unfold prolog_unsorted. rewrite !keys_set_var. rewrite keys_map_quote.
+  unfold bob_vars. cbn. intuition.
+Qed.
+
+Lemma NoDup_prolog_unsorted : forall cwd sp, NoDup (keys sp.(sp_env)) -> NoDup (keys (prolog_unsorted cwd sp)).
+Proof.
+  intros cwd sp H. unfold prolog_unsorted. repeat apply NoDup_keys_set_var. rewrite keys_map_quote. exact H.
+Qed.
+
+Lemma prolog_entries : forall cwd sp k w,
+  NoDup (keys sp.(sp_env)) -> In (k, w) (prolog_unsorted cwd sp) ->
+  (k = s_BOB_CWD /\ w = quote (abspath cwd sp.(sp_ws_exec))) \/
+  (k = s_LD /\ w = ld_word cwd sp.(sp_libs)) \/
+  (k = s_PATH /\ w = path_word cwd sp.(sp_paths)) \/
+  (~ In k bob_vars /\ exists v, In (k, v) sp.(sp_env) /\ w = quote v).
+Proof.
+  intros cwd sp k w Hnd Hin. unfold prolog_unsorted in Hin.
+  set (base := map (fun kv => (fst kv, quote (snd kv))) sp.(sp_env)) in *.
+  assert (Hb : NoDup (keys base)) by (unfold base; rewrite keys_map_quote; exact Hnd).
+  apply In_set_var in Hin; [| repeat apply NoDup_keys_set_var; exact Hb].
+  destruct Hin as [[H1 H2]|[H1 Hin]]; [left; split; assumption|].
+  apply In_set_var in Hin; [| apply NoDup_keys_set_var; exact Hb].
+  destruct Hin as [[H3 H4]|[H3 Hin]]; [right; left; split; assumption|].
+  apply In_set_var in Hin; [| exact Hb].
+  destruct Hin as [[H5 H6]|[H5 Hin]]; [right; right; left; split; assumption|].
+  right; right; right. split; [apply not_bob_var; repeat split; assumption|].
+  unfold base in Hin. apply in_map_iff in Hin. destruct Hin as [[k0 v0] [Heq Hin]]. cbn in Heq.
+  inversion Heq; subst. exists v0. split; [exact Hin | reflexivity].
+Qed.
+
+Lemma prolog_has_declared : forall cwd sp k v,
+  In (k, v) sp.(sp_env) -> ~ In k bob_vars -> In (k, quote v) (prolog_unsorted cwd sp).
+Proof.
+  intros cwd sp k v Hin Hnb. apply not_bob_var in Hnb. destruct Hnb as (H1 & H2 & H3).
+  unfold prolog_unsorted. repeat (apply In_set_var_old; [assumption|]).
+  apply in_map_iff. exists (k, v). split; [reflexivity | exact Hin].
+Qed.
+
+Lemma prolog_has_cwd : forall cwd sp, In (s_BOB_CWD, quote (abspath cwd sp.(sp_ws_exec))) (prolog_unsorted cwd sp).
+Proof. intros. unfold prolog_unsorted. apply In_set_var_new. Qed.
+
+Lemma prolog_has_ld : forall cwd sp, In (s_LD, ld_word cwd sp.(sp_libs)) (prolog_unsorted cwd sp).
+Proof.
+  intros. unfold prolog_unsorted. apply In_set_var_old; [discriminate|]. apply In_set_var_new.
+Qed.
+
+Lemma prolog_has_path : forall cwd sp, In (s_PATH, path_word cwd sp.(sp_paths)) (prolog_unsorted cwd sp).
+Proof.
+  intros. unfold prolog_unsorted. apply In_set_var_old; [discriminate|]. apply In_set_var_old; [discriminate|].
+  apply In_set_var_new.
+Qed.
+
+Lemma keys_perm : forall a b : envmap, Permutation a b -> Permutation (keys a) (keys b).
+Proof. intros. unfold keys. apply Permutation_map. assumption. Qed.
+
+Lemma lookup_bash_init_other : forall dpath e k, k <> s_PATH -> lookup (bash_init dpath e) k = lookup e k.
+Proof.
+  intros. unfold bash_init. destruct (lookup e s_PATH); [reflexivity | apply lookup_set_other; assumption].
+Qed.
+
+Lemma script_env_spec : forall dpath preserve cwd sp environ,
+  spec_ok cwd sp ->
+  exists e', script_env dpath preserve cwd sp environ = Some e' /\
+    (forall k v, In (k, v) sp.(sp_env) -> ~ In k bob_vars -> lookup e' k = Some v) /\
+    lookup e' s_BOB_CWD = Some (abspath cwd sp.(sp_ws_exec)) /\
+    lookup e' s_LD = Some (join_with [ch_colon] (map (abspath cwd) sp.(sp_libs))) /\
+    lookup e' s_PATH = Some (path_value (map (abspath cwd) sp.(sp_paths))
+                                        (getenv (bash_init dpath (proc_env preserve sp environ)) s_PATH)) /\
+    (forall k, ~ In k (keys sp.(sp_env)) -> ~ In k bob_vars ->
+               lookup e' k = lookup (proc_env preserve sp environ) k).
+Proof.
+  intros dpath preserve cwd sp environ (Hnd & Hvals & Hpaths & Hlibs & Hcwd).
+  set (h := bash_init dpath (proc_env preserve sp environ)).
+  assert (Hperm : Permutation (prolog_exports cwd sp) (prolog_unsorted cwd sp)) by apply sort_kv_perm.
+  assert (Hev : forall k w, In (k, w) (prolog_unsorted cwd sp) -> exists v, entry_val h k w v).
+  { intros k w Hin. destruct (prolog_entries _ _ _ _ Hnd Hin) as [[H1 H2]|[[H1 H2]|[[H1 H2]|[H1 [v [H2 H3]]]]]]; subst.
+    - eexists. apply ev_const. intro e. apply quote_roundtrip_proof. exact Hcwd.
+    - eexists. apply ev_const. intro e. apply bash_word_ld_word. exact Hlibs.
+    - eexists. apply ev_path. intros e He. rewrite bash_word_path_word by exact Hpaths. rewrite He. reflexivity.
+    - eexists. apply ev_const. intro e. apply quote_roundtrip_proof. eapply Hvals; eassumption. }
+  destruct (run_exports_spec h (prolog_exports cwd sp) h) as [e' [Hrun [Hin Hout]]].
+  - eapply Permutation_NoDup; [apply Permutation_sym; apply keys_perm; exact Hperm|].
+    apply NoDup_prolog_unsorted. exact Hnd.
+  - intros k w H. apply Hev. eapply Permutation_in; eassumption.
+  - reflexivity.
+  - exists e'. split; [exact Hrun|].
+    assert (Hsorted : forall k w, In (k, w) (prolog_unsorted cwd sp) -> In (k, w) (prolog_exports cwd sp)).
+    { intros k w H. eapply Permutation_in; [apply Permutation_sym; exact Hperm | exact H]. }
+    split; [|split; [|split; [|split]]].
+    + intros k v Hkv Hnb. eapply Hin; [apply Hsorted; apply prolog_has_declared; eassumption|].
+      apply ev_const. intro e. apply quote_roundtrip_proof. eapply Hvals; eassumption.
+    + eapply Hin; [apply Hsorted; apply prolog_has_cwd|].
+      apply ev_const. intro e. apply quote_roundtrip_proof. exact Hcwd.
+    + eapply Hin; [apply Hsorted; apply prolog_has_ld|].
+      apply ev_const. intro e. apply bash_word_ld_word. exact Hlibs.
+    + eapply Hin; [apply Hsorted; apply prolog_has_path|].
+      apply ev_path. intros e He. rewrite bash_word_path_word by exact Hpaths. rewrite He. reflexivity.
+    + intros k Hk Hnb. rewrite <- (lookup_bash_init_other dpath (proc_env preserve sp environ) k) by (apply not_bob_var in Hnb; tauto). fold h.
+      apply Hout. intro Hc.
+      assert (Hc' : In k (keys (prolog_unsorted cwd sp))).
+      { eapply Permutation_in; [apply keys_perm; exact Hperm | exact Hc]. }
+      apply keys_prolog_unsorted in Hc'. destruct Hc'; contradiction.
+Qed.
+
+(* P1 export_value_exact *)
+Lemma export_value_exact_proof : forall dpath preserve cwd sp environ,
+  spec_ok cwd sp ->
+  exists e', script_env dpath preserve cwd sp environ = Some e' /\
+    forall k v, In (k, v) sp.(sp_env) -> ~ In k bob_vars -> lookup e' k = Some v.
+Proof.
+  intros. destruct (script_env_spec dpath preserve cwd sp environ H) as [e' [H1 [H2 _]]]. exists e'. split; assumption.
+Qed.
+
+(* the host side *)
+Lemma lookup_host_env : forall preserve wl environ k,
+  lookup (host_env preserve wl environ) k =
+  if preserve || str_mem k wl then lookup environ k else None.
+Proof.
+  intros. unfold host_env. destruct preserve; cbn [orb]; [reflexivity|].
+  apply (lookup_filter_key (fun k => str_mem k wl)).
+Qed.
+
+Lemma lookup_proc_env_other : forall preserve sp environ k, k <> s_PATH ->
+  lookup (proc_env preserve sp environ) k = lookup (host_env preserve sp.(sp_whitelist) environ) k.
+Proof.
+  intros. unfold proc_env. destruct (sp_fat sp); [apply lookup_set_other; assumption | reflexivity].
+Qed.
+
+Lemma lookup_Some_keys : forall e k, (exists v, lookup e k = Some v) <-> In k (keys e).
+Proof.
+  intros e k. split.
+  - intros [v H]. destruct (lookup e k) eqn:E; [|discriminate].
+    apply lookup_Some_In in E. unfold keys. apply in_map_iff. exists (k, s). split; [reflexivity|exact E].
+  - intro H. destruct (lookup e k) eqn:E; [eexists; reflexivity|].
+    apply lookup_None_keys in E. contradiction.
+Qed.
+
+(* P1 visible_vars_exact *)
+Lemma visible_vars_exact_proof : forall dpath preserve cwd sp environ e',
+  spec_ok cwd sp ->
+  script_env dpath preserve cwd sp environ = Some e' ->
+  forall k, In k (keys e') <->
+            (In k (keys sp.(sp_env)) \/ In k bob_vars \/
+             host_visible preserve sp.(sp_whitelist) environ k).
+Proof.
+  intros dpath preserve cwd sp environ e' Hok Hrun k.
+  destruct (script_env_spec dpath preserve cwd sp environ Hok) as [e1 [H1 [Hdecl [Hcwd [Hld [Hpath Hother]]]]]].
+  rewrite Hrun in H1. inversion H1; subst e1. clear H1.
+  rewrite <- lookup_Some_keys.
+  destruct (in_dec (list_eq_dec N.eq_dec) k bob_vars) as [Hb|Hb].
+  - split; [intro; right; left; exact Hb|]. intros _.
+    unfold bob_vars in Hb. cbn in Hb. destruct Hb as [Hb|[Hb|[Hb|[]]]]; subst k; eexists; eassumption.
+  - destruct (in_dec (list_eq_dec N.eq_dec) k (keys sp.(sp_env))) as [Hd|Hd].
+    + split; [intro; left; exact Hd|]. intros _.
+      unfold keys in Hd. apply in_map_iff in Hd. destruct Hd as [[k0 v0] [Hk Hin]]. cbn in Hk. subst k0.
+      exists v0. eapply Hdecl; eassumption.
+    + rewrite (Hother k Hd Hb).
+      assert (Hk : k <> s_PATH) by (apply not_bob_var in Hb; tauto).
+      rewrite lookup_proc_env_other by exact Hk. rewrite lookup_host_env.
+      unfold host_visible. rewrite <- (str_mem_In k (sp_whitelist sp)).
+      destruct preserve; cbn [orb].
+      * rewrite lookup_Some_keys. intuition.
+      * destruct (str_mem k (sp_whitelist sp)) eqn:Ew.
+        -- rewrite lookup_Some_keys. intuition.
+        -- split; [intros [v Hv]; discriminate|]. intros [H|[H|[_ [H|H]]]]; try contradiction; discriminate.
+Qed.
+
+(* host variables reach the script unchanged *)
+Lemma host_passthrough_proof : forall dpath preserve cwd sp environ e',
+  spec_ok cwd sp ->
+  script_env dpath preserve cwd sp environ = Some e' ->
+  forall k, ~ In k (keys sp.(sp_env)) -> ~ In k bob_vars ->
+    lookup e' k = if preserve || str_mem k sp.(sp_whitelist) then lookup environ k else None.
+Proof.
+  intros dpath preserve cwd sp environ e' Hok Hrun k Hd Hb.
+  destruct (script_env_spec dpath preserve cwd sp environ Hok) as [e1 [H1 [_ [_ [_ [_ Hother]]]]]].
+  rewrite Hrun in H1. inversion H1; subst e1.
+  rewrite (Hother k Hd Hb). rewrite lookup_proc_env_other by (apply not_bob_var in Hb; tauto).
+  apply lookup_host_env.
+Qed.
+
+(* P1 tools_on_path *)
+Lemma tools_on_path_proof : forall dpath preserve cwd sp environ e',
+  spec_ok cwd sp ->
+  script_env dpath preserve cwd sp environ = Some e' ->
+  lookup e' s_PATH = Some (path_value (map (abspath cwd) sp.(sp_paths))
+                                      (getenv (bash_init dpath (proc_env preserve sp environ)) s_PATH)) /\
+  lookup e' s_LD = Some (join_with [ch_colon] (map (abspath cwd) sp.(sp_libs))) /\
+  lookup e' s_BOB_CWD = Some (abspath cwd sp.(sp_ws_exec)).
+Proof.
+  intros dpath preserve cwd sp environ e' Hok Hrun.
+  destruct (script_env_spec dpath preserve cwd sp environ Hok) as [e1 [H1 [_ [Hcwd [Hld [Hpath _]]]]]].
+  rewrite Hrun in H1. inversion H1; subst e1. repeat split; assumption.
+Qed.
+
+(* P1 args_in_declared_order *)
+Lemma args_in_declared_order_proof : forall cwd bash script trace sp,
+  bash <> s_dashdash ->
+  positional (call_args cwd bash script trace sp) = map (abspath cwd) sp.(sp_args).
+Proof.
+  intros cwd bash script trace sp Hb. unfold call_args. apply str_eqb_neq in Hb.
+  destruct trace; cbn [app positional]; rewrite Hb; reflexivity.
+Qed.
+
+(* ------------------------------------------------------------------ input.py: prune *)
+Lemma In_prune : forall full allowed k v, In (k, v) (prune full allowed) <-> In (k, v) full /\ In k allowed.
+Proof.
+  intros. unfold prune. rewrite filter_In. cbn [fst]. rewrite str_mem_In. reflexivity.
+Qed.
+
+Lemma In_step_vars : forall rs kd k,
+  In k (fst (step_vars rs kd) ++ snd (step_vars rs kd)) <->
+  exists r, In r rs /\ In k (fst (own_vars r kd) ++ snd (own_vars r kd)).
+Proof.
+  intros rs kd k. unfold step_vars. cbn [fst snd]. rewrite in_app_iff, !in_flat_map. split.
+  - intros [[r [H1 H2]]|[r [H1 H2]]]; exists r; (split; [exact H1|]); rewrite in_app_iff; [left|right]; exact H2.
+  - intros [r [H1 H2]]. rewrite in_app_iff in H2. destruct H2; [left|right]; exists r; split; assumption.
+Qed.
+
+Lemma step_env_exact_proof : forall full rs kd k v,
+  In (k, v) (step_env full rs kd) <->
+  In (k, v) full /\ exists r, In r rs /\ In k (fst (own_vars r kd) ++ snd (own_vars r kd)).
+Proof. intros. unfold step_env. rewrite In_prune. rewrite In_step_vars. reflexivity. Qed.
+
+Lemma own_vars_mono : forall r k,
+  (In k (fst (own_vars r KCheckout) ++ snd (own_vars r KCheckout)) ->
+   In k (fst (own_vars r KBuild) ++ snd (own_vars r KBuild))) /\
+  (In k (fst (own_vars r KBuild) ++ snd (own_vars r KBuild)) ->
+   In k (fst (own_vars r KPackage) ++ snd (own_vars r KPackage))).
+Proof.
+  intros r k. cbn [own_vars fst snd]. repeat rewrite in_app_iff. tauto.
+Qed.
+
+Lemma step_env_chain_proof : forall full rs k v,
+  (In (k, v) (step_env full rs KCheckout) -> In (k, v) (step_env full rs KBuild)) /\
+  (In (k, v) (step_env full rs KBuild) -> In (k, v) (step_env full rs KPackage)).
+Proof.
+  intros full rs k v. rewrite !step_env_exact_proof. split; intros [H1 [r [H2 H3]]]; (split; [exact H1|]); exists r; (split; [exact H2|]);
+    apply (own_vars_mono r k); exact H3.
+Qed.
+
+Lemma NoDup_keys_filter : forall (f : str * str -> bool) e, NoDup (keys e) -> NoDup (keys (filter f e)).
+Proof.
+  induction e as [|[k v] e IH]; intro H; cbn; [constructor|].
+  inversion H as [|? ? Hn Hd]; subst. destruct (f (k, v)); cbn.
+  - constructor; [| apply IH; exact Hd].
+    intro Hc. apply Hn. unfold keys in *. apply in_map_iff in Hc. destruct Hc as [x [Hx1 Hx2]].
+    apply filter_In in Hx2. apply in_map_iff. exists x. tauto.
+  - apply IH. exact Hd.
+Qed.
+
+(* ------------------------------------------------------------------ fingerprint scripts *)
+Lemma fingerprint_env_restricted_proof : forall preserve sp environ fpcwd stepenv varset,
+  NoDup (keys stepenv) -> (forall k v, In (k, v) stepenv -> no_nul v) ->
+  exists e', fingerprint_env preserve sp environ fpcwd stepenv varset = Some e' /\
+    (forall k v, In (k, v) stepenv -> In k varset -> lookup e' k = Some v) /\
+    (forall k, ~ (In k (keys stepenv) /\ In k varset) ->
+               lookup e' k = lookup (fingerprint_proc_env preserve sp environ fpcwd) k).
+Proof.
+  intros preserve sp environ fpcwd stepenv varset Hnd Hvals.
+  set (h := fingerprint_proc_env preserve sp environ fpcwd).
+  set (pr := prune stepenv varset).
+  set (q := map (fun kv => (fst kv, quote (snd kv))) pr).
+  assert (Hperm : Permutation (fingerprint_exports stepenv varset) q).
+  { unfold fingerprint_exports. eapply Permutation_trans; [apply Permutation_sym; apply Permutation_rev|].
+    apply sort_kv_perm. }
+  assert (Hq : forall k w, In (k, w) q <-> exists v, In (k, v) stepenv /\ In k varset /\ w = quote v).
+  { intros k w. unfold q. rewrite in_map_iff. split.
+    - intros [[k0 v0] [Heq Hin]]. cbn in Heq. inversion Heq; subst. apply In_prune in Hin. exists v0. tauto.
+    - intros [v [H1 [H2 H3]]]. exists (k, v). subst w. split; [reflexivity|]. apply In_prune. tauto. }
+  destruct (run_exports_spec h (fingerprint_exports stepenv varset) h) as [e' [Hrun [Hin Hout]]].
+  - eapply Permutation_NoDup; [apply Permutation_sym; apply keys_perm; exact Hperm|].
+    unfold q. rewrite keys_map_quote. apply NoDup_keys_filter. exact Hnd.
+  - intros k w H. apply (Permutation_in _ Hperm) in H. apply Hq in H. destruct H as [v [H1 [H2 H3]]]. subst w.
+    exists v. apply ev_const. intro e. apply quote_roundtrip_proof. eapply Hvals; eassumption.
+  - reflexivity.
+  - exists e'. split; [exact Hrun|]. split.
+    + intros k v H1 H2. eapply Hin.
+      * eapply Permutation_in; [apply Permutation_sym; exact Hperm|]. apply Hq. exists v. repeat split; assumption.
+      * apply ev_const. intro e. apply quote_roundtrip_proof. eapply Hvals; eassumption.
+    + intros k Hk. apply Hout. intro Hc.
+      assert (Hc' : In k (keys q)) by (eapply Permutation_in; [apply keys_perm; exact Hperm | exact Hc]).
+      unfold keys in Hc'. apply in_map_iff in Hc'. destruct Hc' as [[k0 w0] [Hk0 Hin0]]. cbn in Hk0. subst k0.
+      apply Hq in Hin0. destruct Hin0 as [v [H1 [H2 _]]]. apply Hk. split; [|exact H2].
+      unfold keys. apply in_map_iff. exists (k, v). split; [reflexivity|exact H1].
+Qed.
+
+(* ------------------------------------------------------------------ sandbox helper command line *)
+Definition item_ok (i : item) : Prop :=
+  match i with
+  | IFlag c => In c flags_no_arg
+  | IArg c _ => In c opts_with_arg
+  | IMount _ _ => True
+  end.
+
+Lemma helper_mounts_items : forall items pending,
+  Forall item_ok items ->
+  helper_mounts (flat_map render_item items ++ [s_dashdash]) pending =
+  flush pending ++ flat_map item_mounts items.
+Proof.
+  induction items as [|i items IH]; intros pending Hok.
+  - cbn. rewrite app_nil_r. reflexivity.
+  - inversion Hok as [|? ? Hi Hr]; subst. cbn [flat_map]. rewrite <- app_assoc.
+    destruct i as [c|c x|s [[rw t]|]]; cbn [render_item item_mounts app].
+    + (* flag *)
+      cbn in Hi. unfold flags_no_arg in Hi. cbn in Hi.
+      destruct Hi as [Hc|[Hc|[Hc|[Hc|[Hc|[]]]]]]; subst c; cbn [helper_mounts]; 
+        (match goal with |- context [str_eqb ?a ?b] => idtac end);
+        vm_compute (str_eqb _ s_dashdash); cbv iota; vm_compute (str_eqb _ oM); cbv iota;
+        vm_compute (str_eqb _ om || str_eqb _ ow); cbv iota;
+        vm_compute (existsb _ opts_with_arg); cbv iota; apply IH; exact Hr.
+    + (* option with argument *)
+      cbn in Hi. unfold opts_with_arg in Hi. cbn in Hi.
+      destruct Hi as [Hc|[Hc|[Hc|[Hc|[Hc|[Hc|[]]]]]]]; subst c; cbn [helper_mounts];
+        vm_compute (str_eqb _ s_dashdash); cbv iota; vm_compute (str_eqb _ oM); cbv iota;
+        vm_compute (str_eqb _ om || str_eqb _ ow); cbv iota;
+        vm_compute (existsb _ opts_with_arg); cbv iota; apply IH; exact Hr.
+    + (* -M s -m/-w t *)
+      cbn [helper_mounts]. vm_compute (str_eqb oM s_dashdash). cbv iota. vm_compute (str_eqb oM oM). cbv iota.
+      destruct rw.
+      * cbn [helper_mounts]. vm_compute (str_eqb ow s_dashdash). cbv iota. vm_compute (str_eqb ow oM). cbv iota.
+        vm_compute (str_eqb ow om || str_eqb ow ow). cbv iota. vm_compute (str_eqb ow ow).
+        rewrite IH by exact Hr. cbn [flush app]. reflexivity.
+      * cbn [helper_mounts]. vm_compute (str_eqb om s_dashdash). cbv iota. vm_compute (str_eqb om oM). cbv iota.
+        vm_compute (str_eqb om om || str_eqb om ow). cbv iota. vm_compute (str_eqb om ow).
+        rewrite IH by exact Hr. cbn [flush app]. reflexivity.
+    + (* -M s alone *)
+      cbn [helper_mounts]. vm_compute (str_eqb oM s_dashdash). cbv iota. vm_compute (str_eqb oM oM). cbv iota.
+      rewrite IH by exact Hr. cbn [flush app]. reflexivity.
+Qed.
+
+Lemma Forall_item_ok_mounts : forall (A : Type) (f : A -> item) l,
+  (forall a, item_ok (f a)) -> Forall item_ok (map f l).
+Proof. intros. apply Forall_forall. intros x Hx. apply in_map_iff in Hx. destruct Hx as [a [Ha _]]. subst. apply H. Qed.
+
+Lemma host_mount_items_ok : forall w j m, Forall item_ok (host_mount_items w j m).
+Proof.
+  intros w j [[hp sp] opts]. unfold host_mount_items.
+  destruct (str_mem _ opts); [constructor|].
+  destruct (str_mem s_nofail opts && _); [constructor|].
+  constructor; [exact I | constructor].
+Qed.
+
+Lemma Forall_app_intro : forall (A : Type) (P : A -> Prop) a b, Forall P a -> Forall P b -> Forall P (a ++ b).
+Proof. intros. apply Forall_app. split; assumption. Qed.
+
+Lemma base_items_ok : forall w sp, Forall item_ok (match sp_fat sp with Some f => fat_items w (sp_jenkins sp) f | None => slim_items w end).
+Proof.
+  intros w sp. destruct (sp_fat sp) as [f|].
+  - unfold fat_items. apply Forall_app_intro; [repeat constructor; cbn; tauto|].
+    apply Forall_app_intro; [apply Forall_item_ok_mounts; intro; exact I|].
+    apply Forall_app_intro.
+    + apply Forall_forall. intros x Hx. apply in_flat_map in Hx. destruct Hx as [m [_ Hm]].
+      pose proof (host_mount_items_ok w (sp_jenkins sp) m) as Hf. rewrite Forall_forall in Hf. apply Hf. exact Hm.
+    + destruct (str_eqb _ s_root); [repeat constructor; cbn; tauto|].
+      destruct (str_eqb _ s_USER); [repeat constructor; cbn; tauto | constructor].
+  - unfold slim_items. apply Forall_app_intro; [repeat constructor; cbn; tauto|].
+    apply Forall_app_intro; [| repeat constructor].
+    apply Forall_forall. intros x Hx. apply in_flat_map in Hx. destruct Hx as [e [_ He]].
+    destruct (str_eqb e s_tmp_name); [destruct He | destruct He as [He|[]]; subst; exact I].
+Qed.
+
+Lemma sandbox_items_ok : forall w sp, Forall item_ok (sandbox_items w sp).
+Proof.
+  intros w sp. unfold sandbox_items.
+  apply Forall_app_intro; [apply base_items_ok|].
+  apply Forall_app_intro; [repeat constructor|].
+  apply Forall_app_intro; [destruct (sp_net sp); repeat constructor; cbn; tauto|].
+  apply Forall_app_intro; [unfold envfile_items; destruct (sp_envfile sp); repeat constructor|].
+  apply Forall_app_intro; [repeat constructor|].
+  apply Forall_app_intro; [repeat constructor; cbn; tauto|].
+  apply Forall_item_ok_mounts. intro; exact I.
+Qed.
+
+Lemma mount_plan_eq : forall w sp, has_sandbox sp = true ->
+  mount_plan w sp = flat_map item_mounts (sandbox_items w sp).
+Proof.
+  intros w sp H. unfold mount_plan, sandbox_argv. rewrite H. cbn [tl].
+  rewrite helper_mounts_items by apply sandbox_items_ok. reflexivity.
+Qed.
+
+(* mounts of the individual parts *)
+Lemma flat_map_item_mounts_app : forall a b, flat_map item_mounts (a ++ b) = flat_map item_mounts a ++ flat_map item_mounts b.
+Proof. intros. apply flat_map_app. Qed.
+
+Definition base_items (w : world) (sp : spec) : list item :=
+  match sp.(sp_fat) with Some f => fat_items w sp.(sp_jenkins) f | None => slim_items w end.
+
+Lemma mount_plan_shape : forall w sp, has_sandbox sp = true ->
+  mount_plan w sp =
+  flat_map item_mounts (base_items w sp)
+  ++ [script_mount w sp]
+  ++ (match sp.(sp_envfile) with Some f => [envfile_mount w f] | None => [] end)
+  ++ [ws_mount w sp]
+  ++ map (dep_mount w) sp.(sp_dep_mounts).
+Proof.
+  intros w sp H. rewrite mount_plan_eq by exact H. unfold sandbox_items.
+  rewrite !flat_map_item_mounts_app. fold (base_items w sp). f_equal.
+  cbn [flat_map item_mounts script_item app]. f_equal.
+  assert (Hn : flat_map item_mounts (if sp_net sp then [] else [IFlag 110]) = []) by (destruct (sp_net sp); reflexivity).
+  rewrite Hn. cbn [app]. f_equal.
+  - unfold envfile_items. destruct (sp_envfile sp); reflexivity.
+  - cbn [flat_map item_mounts workspace_item app]. f_equal.
+    induction (sp_dep_mounts sp) as [|d l IH]; [reflexivity|]. cbn. f_equal. exact IH.
+Qed.
+
+Lemma slim_base_mounts : forall w m, In m (flat_map item_mounts (slim_items w)) ->
+  m = whiteout_mount w \/ (m_rw m = false /\ exists e, In e w.(w_root_entries) /\ m = mk_mount (ch_slash :: e) (ch_slash :: e) false).
+Proof.
+  intros w m H. unfold slim_items in H. rewrite !flat_map_item_mounts_app in H.
+  rewrite !in_app_iff in H. destruct H as [H|[H|H]].
+  - cbn in H. contradiction.
+  - right. apply in_flat_map in H. destruct H as [i [Hi Hm]]. apply in_flat_map in Hi. destruct Hi as [e [He Hi]].
+    destruct (str_eqb e s_tmp_name); [destruct Hi|]. destruct Hi as [Hi|[]]. subst i. cbn in Hm.
+    destruct Hm as [Hm|[]]. subst m. split; [reflexivity|]. exists e. split; [exact He|reflexivity].
+  - left. cbn in H. destruct H as [H|[]]. symmetry. exact H.
+Qed.
+
+Lemma fat_base_mounts : forall w j f m, In m (flat_map item_mounts (fat_items w j f)) -> m_rw m = true ->
+  exists hp sp opts, In (hp, sp, opts) f.(fs_mounts) /\ str_mem s_rw opts = true /\
+                     m = mk_mount (w.(w_subst) hp) (w.(w_subst) sp) true.
+Proof.
+  intros w j f m H Hrw. unfold fat_items in H. rewrite !flat_map_item_mounts_app in H.
+  rewrite !in_app_iff in H. destruct H as [H|[H|[H|H]]].
+  - cbn in H. contradiction.
+  - apply in_flat_map in H. destruct H as [i [Hi Hm]]. apply in_map_iff in Hi. destruct Hi as [e [He _]]. subst i.
+    cbn in Hm. destruct Hm as [Hm|[]]. subst m. discriminate.
+  - apply in_flat_map in H. destruct H as [i [Hi Hm]]. apply in_flat_map in Hi. destruct Hi as [[[hp sp] opts] [Hh Hi]].
+    unfold host_mount_items in Hi.
+    destruct (str_mem _ opts); [destruct Hi|].
+    destruct (str_mem s_nofail opts && _); [destruct Hi|].
+    destruct Hi as [Hi|[]]. subst i.
+    destruct (str_mem s_rw opts) eqn:Erw.
+    + cbn in Hm. destruct Hm as [Hm|[]]. subst m. exists hp, sp, opts. repeat split; assumption.
+    + destruct (negb (str_eqb (w_subst w hp) (w_subst w sp))); cbn in Hm; destruct Hm as [Hm|[]]; subst m; discriminate.
+  - destruct (str_eqb _ s_root); [cbn in H; contradiction|]. destruct (str_eqb _ s_USER); cbn in H; contradiction.
+Qed.
+
+(* P1 mount_plan_exact, part 1: the writable mounts *)
+Lemma writable_mounts_exact_proof : forall w sp m,
+  has_sandbox sp = true -> In m (mount_plan w sp) -> m_rw m = true ->
+  m = ws_mount w sp \/
+  (exists f, sp.(sp_envfile) = Some f /\ m = envfile_mount w f) \/
+  (sp.(sp_fat) = None /\ m = whiteout_mount w) \/
+  (exists f hp sbp opts, sp.(sp_fat) = Some f /\ In (hp, sbp, opts) f.(fs_mounts) /\ str_mem s_rw opts = true /\
+                         m = mk_mount (w.(w_subst) hp) (w.(w_subst) sbp) true).
+Proof.
+  intros w sp m Hs Hin Hrw. rewrite mount_plan_shape in Hin by exact Hs.
+  rewrite !in_app_iff in Hin. destruct Hin as [H|[H|[H|[H|H]]]].
+  - unfold base_items in H. destruct (sp_fat sp) as [f|] eqn:Ef.
+    + right; right; right. destruct (fat_base_mounts _ _ _ _ H Hrw) as (hp & sbp & opts & H1 & H2 & H3).
+      exists f, hp, sbp, opts. repeat split; assumption.
+    + destruct (slim_base_mounts _ _ H) as [H1|[H1 _]]; [right; right; left; split; [reflexivity|exact H1] | congruence].
+  - destruct H as [H|[]]. subst m. discriminate.
+  - right; left. destruct (sp_envfile sp) as [f|]; [|destruct H]. destruct H as [H|[]]. exists f. split; [reflexivity|symmetry; exact H].
+  - left. destruct H as [H|[]]. symmetry. exact H.
+  - apply in_map_iff in H. destruct H as [d [Hd _]]. subst m. discriminate.
+Qed.
+
+(* part 2: every declared dependency is mounted, read-only *)
+Lemma deps_mounted_readonly_proof : forall w sp d,
+  has_sandbox sp = true -> In d sp.(sp_dep_mounts) -> In (dep_mount w d) (mount_plan w sp).
+Proof.
+  intros w sp d Hs Hd. rewrite mount_plan_shape by exact Hs. rewrite !in_app_iff. right; right; right; right.
+  apply in_map. exact Hd.
+Qed.
+
+(* part 3: in the slim sandbox nothing below the project directory comes from
+   the host's root mounts *)
+Lemma resolve_app : forall a b p cur, resolve (a ++ b) p cur = resolve b p (resolve a p cur).
+Proof. induction a as [|m a IH]; intros; cbn; [reflexivity | apply IH]. Qed.
+
+Lemma resolve_in : forall l p cur m, resolve l p cur = Some m -> cur = Some m \/ In m l.
+Proof.
+  induction l as [|x l IH]; intros p cur m H; cbn in H; [left; exact H|].
+  apply IH in H. destruct H as [H|H]; [|right; right; exact H].
+  destruct (under (m_tgt x) p); [inversion H; right; left; reflexivity | left; exact H].
+Qed.
+
+Lemma under_refl_prefix : forall d, under d d = true.
+Proof. intros. unfold under. rewrite str_eqb_refl. reflexivity. Qed.
+
+Lemma resolve_after_cover : forall pre m0 post p cur m,
+  under (m_tgt m0) p = true -> resolve (pre ++ m0 :: post) p cur = Some m -> m = m0 \/ In m post.
+Proof.
+  intros pre m0 post p cur m Hu Hr. rewrite resolve_app in Hr. cbn [resolve] in Hr. rewrite Hu in Hr.
+  apply resolve_in in Hr. destruct Hr as [Hr|Hr]; [left; inversion Hr; reflexivity | right; exact Hr].
+Qed.
+
+Lemma slim_project_view_proof : forall w sp p m,
+  sp.(sp_fat) = None -> sp.(sp_slim) = true ->
+  under w.(w_cwd) p = true ->
+  resolve (mount_plan w sp) p None = Some m ->
+  m = whiteout_mount w \/ m = script_mount w sp \/
+  (exists f, sp.(sp_envfile) = Some f /\ m = envfile_mount w f) \/
+  m = ws_mount w sp \/ (exists d, In d sp.(sp_dep_mounts) /\ m = dep_mount w d).
+Proof.
+  intros w sp p m Hf Hsl Hu Hr.
+  assert (Hs : has_sandbox sp = true) by (unfold has_sandbox; rewrite Hf; exact Hsl).
+  rewrite mount_plan_shape in Hr by exact Hs. unfold base_items in Hr. rewrite Hf in Hr.
+  unfold slim_items in Hr. rewrite !flat_map_item_mounts_app in Hr.
+  change (flat_map item_mounts [IMount (pjoin (w_tmp w) s_whiteout) (Some (true, w_cwd w))])
+    with [whiteout_mount w] in Hr.
+  rewrite <- !app_assoc in Hr. rewrite app_assoc in Hr. cbn [app] in Hr.
+  apply resolve_after_cover in Hr; [| exact Hu].
+  destruct Hr as [Hr|Hr]; [left; exact Hr|].
+  cbn [In] in Hr. rewrite !in_app_iff in Hr. destruct Hr as [H|[H|H]].
+  - right; left. symmetry; exact H.
+  - right; right; left. destruct (sp_envfile sp) as [f|]; [|destruct H]. destruct H as [H|[]].
+    exists f. split; [reflexivity | symmetry; exact H].
+  - cbn [In] in H. destruct H as [H|H].
+    + right; right; right; left. symmetry; exact H.
+    + right; right; right; right. apply in_map_iff in H. destruct H as [d [H1 H2]]. exists d. split; [exact H2 | symmetry; exact H1].
+Qed.
+
+(* ------------------------------------------------------------------ StepSpec.fromStep: depMounts *)
+Lemma chain_mounts_exact : forall s x,
+  In x (chain_mounts s) <-> exists d, own_chain s d /\ st_valid d = true /\ x = (st_storage d, st_exec d).
+Proof.
+  induction s as [v c p e | v c p e a IH o]; intros x; cbn [chain_mounts].
+  - split; [intros [] | intros [d [H _]]; inversion H].
+  - destruct v; cbn [andb].
+    + destruct c; cbn [negb].
+      * split; [intros [] | intros [d [H _]]; inversion H].
+      * rewrite in_app_iff. rewrite IH. split.
+        -- intros [H|[d [H1 H2]]].
+           ++ destruct (st_valid a) eqn:Ea; [|destruct H]. destruct H as [H|[]]. exists a. split; [constructor|]. split; [exact Ea|symmetry; exact H].
+           ++ exists d. split; [apply oc_next; exact H1 | exact H2].
+        -- intros [d [H1 [H2 H3]]]. inversion H1; subst.
+           ++ left. rewrite H2. left. reflexivity.
+           ++ right. exists d. repeat split; assumption.
+    + split; [intros [] | intros [d [H _]]; inversion H].
+Qed.
+
+Lemma dep_mounts_exact_proof : forall s ts x,
+  In x (dep_mounts s ts) <->
+  (exists d, In d (st_args s ++ ts) /\ d.(d_valid) = true /\ x = (d.(d_storage), d.(d_exec))) \/
+  (exists d, own_chain s d /\ st_valid d = true /\ x = (st_storage d, st_exec d)).
+Proof.
+  intros s ts x. unfold dep_mounts. rewrite in_app_iff. rewrite chain_mounts_exact.
+  rewrite in_map_iff. split.
+  - intros [[d [H1 H2]]|H]; [left | right; exact H].
+    apply filter_In in H2. exists d. repeat split; try tauto. symmetry. exact H1.
+  - intros [[d [H1 [H2 H3]]]|H]; [left | right; exact H].
+    exists d. split; [symmetry; exact H3|]. apply filter_In. split; assumption.
 Qed.
